@@ -382,6 +382,13 @@ impl<'a, 'src: 'a> Compiler<'a, 'src> {
     }
   }
 
+  /// Continue numbering inline cache slots after the ones earlier
+  /// compilations into the same module already use
+  pub fn with_cache_ids(mut self, cache_id_emitter: CacheIdEmitter) -> Self {
+    self.cache_id_emitter = Rc::new(RefCell::new(cache_id_emitter));
+    self
+  }
+
   #[cfg(feature = "debug")]
   pub fn with_io(mut self, io: Io) -> Self {
     self.io = Some(io);
